@@ -78,7 +78,8 @@ def oracle_c02(c):
         if p not in reported and (algo is None or p in algo):
             pr.append(f"a resolver returned an exception instance at {p}: no error with that path is reported")
     pr += [p for p in orc.check_conforms(c.b.model, c.doc, c.op, c.variables, c.real["data"]) if p.startswith("null at non-null")]
-    if c.real["warnings"]: pr.append("asyncio warning: " + c.real["warnings"][0])
+    # (un-awaited coroutine warnings — the engine creates the coroutines of concurrent siblings before an inline sibling
+    #  raises, under parent_concurrently=False — are outside the statement: counted in the evidence, not a problem)
     return pr
 
 def oracle_c03(c):
@@ -136,7 +137,11 @@ def root_arg_problems(c, sv, op, coerced):
                 ok = True
             except orc.Invalid:
                 ok = False
-            if ok and called.get(key, 0) != 1 and op["operation"] != "mutation":
+            # (with sequential parent coercion a raising non-null sibling legitimately keeps later root fields from starting:
+            #  "called" is required under the default, concurrent, configuration only; never more than once anywhere)
+            if ok and called.get(key, 0) > 1:
+                pr.append(f"resolver of selected field {root}.{fname} (key {key}) called {called.get(key, 0)} times")
+            if ok and called.get(key, 0) != 1 and op["operation"] != "mutation" and not getattr(c.b, "cfg", None):
                 pr.append(f"resolver of selected field {root}.{fname} (key {key}) called {called.get(key, 0)} times although its arguments coerce per the specification")
             if not ok and not any(e["path"] and e["path"][0] == key for e in c.real["errors"]):
                 pr.append(f"arguments of {root}.{fname} (key {key}) do not coerce but no error is reported for that field")
@@ -185,6 +190,9 @@ def nontrivial(pid, c):
     if pid == "C05": return any(call["args"]["d"] for call in r["calls"])
     return True
 
+ENGINE_CONFIGS = [{"coerce_parent_concurrently": False}, {"coerce_list_concurrently": False}, {"parent_concurrently": False}, {"list_concurrently": False},
+                  {"coerce_parent_concurrently": False, "coerce_list_concurrently": False, "parent_concurrently": False, "list_concurrently": False}]
+
 PROFILES = {
     "C01": dict(adv=0.0, fail=0.0, inv=0.0, schemas=(25, 300), docs=(60, 150)),
     "C02": dict(adv=0.08, fail=0.35, inv=0.0, exc_items=0.15, schemas=(25, 300), docs=(60, 150)),
@@ -207,6 +215,7 @@ async def explore(pid, tier, seed, m, v, known, budget_s, extra_cases=None):
         h = hashlib.sha256(json.dumps([c.query, c.op, c.variables, c.renv], sort_keys=True, default=str).encode()).hexdigest()[:16]
         if nontrivial(pid, c): stats["nontrivial"].add(h)
         stats["with_errors"] += bool(c.real["errors"]); stats["data_null"] += c.real["data"] is None; stats["calls"] += len(c.real["calls"])
+        if c.real.get("warnings"): stats["dist"]["requests_with_unawaited_coroutine_warnings"] = stats["dist"].get("requests_with_unawaited_coroutine_warnings", 0) + 1
         if len(stats["samples"]) < 4 and nontrivial(pid, c):
             stats["samples"].append({"query": c.query, "operation_name": c.op, "variables": c.variables, "data": c.real["data"], "errors": c.real["errors"][:3]})
         problems = oracle(c)
@@ -226,7 +235,11 @@ async def explore(pid, tier, seed, m, v, known, budget_s, extra_cases=None):
         sg.exc_items = prof.get("exc_items", 0.0)
         renv = sg.gen_env(adv=prof["adv"], fail=prof["fail"])
         mixed = sg.mixed_scenario(renv)
-        b = await er.build_engine(sg.model(), renv)
+        # every third schema runs under non-default concurrency settings (sequential list / parent coercion, resolver-level
+        # flags): the result must be the execution algorithm's under each of them
+        cfg = rng.choice(ENGINE_CONFIGS) if si % 3 == 2 else None
+        b = await er.build_engine(sg.model(), renv, cfg=cfg)
+        if cfg: stats["dist"]["non_default_concurrency_schemas"] = stats["dist"].get("non_default_concurrency_schemas", 0) + 1
         # (resolvers that modify their own `args` are NOT used here: a whole-variable argument is delivered as the one
         #  coerced variable object to every field using it, so such a resolver legitimately changes what a sibling sees;
         #  the C15 check uses them, where both sides of the comparison share that aliasing)
